@@ -18,6 +18,10 @@ for line in open('/verif/properties.jsonl'):
     if p['id'] == pid:
         prop = p
 assert prop
+N_CHANGES = 'SIX' if rnd == '4' else 'THREE'
+N_RANGE = '1..6' if rnd == '4' else '1..3'
+if rnd == '4':
+    EXTRA = '''\n\nSTYLE FOR THIS ROUND: small, realistic slips - each change is a ONE-TO-THREE-LINE edit of the kind that survives code review (a wrong variable of two similar ones, `<` for `<=`, a condition that forgets one case, an argument not passed on, a default changed, the wrong one of two lists, an early return, an index off by one, `is` for `==`, a swallowed exception, a value computed before instead of after a step). Put each of the six in a DIFFERENT function, and spread them over every source file that takes part in the property. The existing test suite must still pass for each, so aim at the behaviour the suite does not pin down.'''
 print(f"""You are working on a scratch git worktree of the Python library ChrisThoung/fsic (a small macroeconomic modelling library: equation-script parser that generates model classes, plus a per-period Gauss-Seidel solver). Your worktree is {wt}. Work ONLY inside {wt} and {out}. Never read or touch /repo or /verif (they are off limits), and do not look for other people's work elsewhere on the disk.
 
 How to run things:
@@ -33,10 +37,10 @@ STATEMENT: {prop['statement']}
 
 IT IS MEANT TO HOLD FOR: {prop['quantifier']['text']}
 
-YOUR TASK: produce THREE different changes to the library source (files under {wt}/fsic/) each of which BREAKS this property (any clause of it) while the package still imports and the existing test suite still passes exactly as at baseline. The three changes must use different mechanisms / touch different clauses of the property. Each change should look like a realistic mistake (a plausible refactoring slip, optimisation, or 'improvement' a developer could make) and must need something SPECIFIC to manifest - e.g. a particular sequence of several operations, a fault/exception/non-finite value at a particular point, a particular option combination or unusual input, a boundary value, or two cooperating edits that each look fine alone - NOT something that ordinary use (e.g. just constructing and solving a typical model with default options) would expose at once. Subtle is better than blatant, but it must be a real violation of the property as stated, demonstrable through the public API.{EXTRA}
+YOUR TASK: produce {N_CHANGES} different changes to the library source (files under {wt}/fsic/) each of which BREAKS this property (any clause of it) while the package still imports and the existing test suite still passes exactly as at baseline. The changes must use different mechanisms / touch different clauses of the property where it has several. Each change should look like a realistic mistake (a plausible refactoring slip, optimisation, or 'improvement' a developer could make) and must need something SPECIFIC to manifest - e.g. a particular sequence of several operations, a fault/exception/non-finite value at a particular point, a particular option combination or unusual input, a boundary value, or two cooperating edits that each look fine alone - NOT something that ordinary use (e.g. just constructing and solving a typical model with default options) would expose at once. Subtle is better than blatant, but it must be a real violation of the property as stated, demonstrable through the public API.{EXTRA}
 
-For each change i in 1..3 write into {out}/:
+For each change i in {N_RANGE} write into {out}/:
   - patch_i.diff : output of `git -C {wt} diff` for that change alone (relative to the clean worktree; must apply with `git apply` to a clean checkout of the same commit)
   - demo_i.py    : a small standalone program (imports fsic, numpy, etc.) that exits with status 0 and prints OK when run against the UNCHANGED library, and exits with status 1 printing what went wrong when run against the library with patch_i applied. It must demonstrate a violation of the property above (say which clause in a comment).
   - notes_i.md   : 5-10 lines: what was changed, which clause of the property it breaks, what exactly is needed for it to manifest, and the test-suite result you observed with the patch applied (number passed/failed).
-Before writing each patch file, actually run the test suite with the change applied and confirm 240 passed; run demo_i.py with and without the change to confirm exit codes 1 and 0. Reset the worktree between changes with `git -C {wt} checkout -- .` and leave it clean at the end (`git -C {wt} status --short` shows no modified tracked files). Do not commit anything. In your final message, list the three changes in one line each.""")
+Before writing each patch file, actually run the test suite with the change applied and confirm 240 passed; run demo_i.py with and without the change to confirm exit codes 1 and 0. Reset the worktree between changes with `git -C {wt} checkout -- .` and leave it clean at the end (`git -C {wt} status --short` shows no modified tracked files). Do not commit anything. In your final message, list the changes in one line each.""")
